@@ -61,7 +61,7 @@ func main() {
 	sigs := map[string]int{}
 	interp.DiagnoseWithoutBounds = noBounds
 	memo := map[string]bool{}
-	opt := interp.ExploreOptions{Depth: 2, MaxExec: 200000, MaxStates: 4096, MaxTuples: 4096, Bounds: !noBounds, Facts: fo}
+	opt := interp.ExploreOptions{Depth: 2, MaxExec: 200000, MaxStates: 4096, MaxTuples: 4096, Bounds: !noBounds, Facts: fo, Pure: true}
 	opt.OnExec = func(x *interp.Execution) {
 		if showTrace {
 			fmt.Printf("%v %s -> %q %v\n", x.History, x.Call, x.Result.Trace.Ret, x.Result.Trace.Fields)
